@@ -529,6 +529,10 @@ func c08GraphUnit() *Unit {
 				"c.yml": "version: '3'\nincludes:\n  d: ./d.yml\ntasks:\n  t:\n    cmds:\n" + c08Line("c", "t"), "d.yml": leaf("d")}, "a:b:c:d:t", []string{"T=d:t PWD=proj IV="}, 0},
 			{"uneven-diamond-short", map[string]string{"Taskfile.yml": "version: '3'\nincludes:\n  c: ./c.yml\n  a: ./a.yml\n", "a.yml": "version: '3'\nincludes:\n  b: ./b.yml\n", "b.yml": "version: '3'\nincludes:\n  c: ./c.yml\n",
 				"c.yml": "version: '3'\nincludes:\n  d: ./d.yml\ntasks:\n  t:\n    cmds:\n" + c08Line("c", "t"), "d.yml": leaf("d")}, "c:d:t", []string{"T=d:t PWD=proj IV="}, 0},
+			{"twice-nested-one", map[string]string{"Taskfile.yml": "version: '3'\nincludes:\n  one:\n    taskfile: ./mid.yml\n    vars: {IV: one}\n  two:\n    taskfile: ./mid.yml\n    vars: {IV: two}\n",
+				"mid.yml": "version: '3'\nincludes:\n  lib:\n    taskfile: ./s.yml\n", "s.yml": leaf("s")}, "one:lib:t", []string{"T=s:t PWD=proj IV=one"}, 0},
+			{"twice-nested-two", map[string]string{"Taskfile.yml": "version: '3'\nincludes:\n  one:\n    taskfile: ./mid.yml\n    vars: {IV: one}\n  two:\n    taskfile: ./mid.yml\n    vars: {IV: two}\n",
+				"mid.yml": "version: '3'\nincludes:\n  lib:\n    taskfile: ./s.yml\n", "s.yml": leaf("s")}, "two:lib:t", []string{"T=s:t PWD=proj IV=two"}, 0},
 			{"cycle-2", map[string]string{"Taskfile.yml": "version: '3'\nincludes:\n  a: ./a.yml\n", "a.yml": "version: '3'\nincludes:\n  r: ./Taskfile.yml\n"}, "x", nil, 110},
 			{"cycle-3", map[string]string{"Taskfile.yml": "version: '3'\nincludes:\n  a: ./a.yml\n", "a.yml": "version: '3'\nincludes:\n  b: ./b.yml\n", "b.yml": "version: '3'\nincludes:\n  a: ./a.yml\n"}, "x", nil, 110},
 			{"self-include", map[string]string{"Taskfile.yml": "version: '3'\nincludes:\n  me: ./Taskfile.yml\n"}, "x", nil, 110},
